@@ -23,6 +23,7 @@ static void account (const char *key, SCEN fn, void *arg, int own_files)
 	for (attempt = 0 ; attempt < 2 ; attempt++)
 	{	if (account_fd0 && fcntl (0, F_GETFD) != -1) close (0) ;
 		snap (&a) ; fn (arg) ; snap (&b) ;
+		if (b.fds < a.fds) { vh_viol (key, "descriptors %d -> %d: the library closed a descriptor it did not open", a.fds, b.fds) ; vh_stat ("scenarios_accounted", 1) ; return ; }	/* cannot be a lazy one-time effect: reported at once */
 		if (b.heap <= a.heap && b.fds == a.fds && b.tmp == a.tmp && b.scr <= a.scr + own_files) { leaked = 0 ; break ; }
 		leaked = 1 ;
 		snprintf (what, sizeof (what), "heap %zu -> %zu bytes (%+ld), descriptors %d -> %d, temp-dir entries %d -> %d, scratch entries %d -> %d", a.heap, b.heap, (long) b.heap - (long) a.heap, a.fds, b.fds, a.tmp, b.tmp, a.scr, b.scr) ;
